@@ -56,7 +56,7 @@ def run(ctx):
     if not vc.prepare(ctx, 'C13'):
         return rep.finish({'evaluations': 0, 'distinct_nontrivial': 0, 'rule': 'harness did not build', 'samples': []}, [])
     quick = ctx.tier == 'quick'
-    n = 1500 if quick else 30000
+    n = 4000 if quick else 30000
     g = ppgen.PpGen(ctx.rng.fork('pp'))
     raw = corpus_cases() + [g.case() for _ in range(n)]
     cases = []
@@ -125,7 +125,7 @@ def run(ctx):
         if len(samples) < 3 and c['kind'] == 'structured':
             samples.append({'source': c['text'][:400], 'output': (a[1][:400] if a[0] == 'ok' else a[1])})
     cov = {'evaluations': len(cases), 'distinct_nontrivial': len(distinct),
-           'rule': 'sources generated from a grammar of directives (#define of object- and function-like macros with 0-3 parameters, multi-line definitions, #undef, #ifdef/#ifndef/#else/#endif nested two deep, #include of generated files by backslash, slash and bare names), macro uses (in statements, brackets, directly beside strings and operators; arguments that are numbers, identifiers, object-like macros, nested calls, empty, bracketed lists with commas, strings holding commas, parentheses and macro names, identifiers that contain a macro or parameter name), bodies with #stringify, ##concatenate, parameters inside strings and inside longer identifiers, other macros; strings holding comment markers, directives and macro names; line and block comments holding quotes and directives; plain token lines; CRLF variants; plus plain texts and malformed sources (argument count, recursive macros, unknown directive, stray #else/#endif, missing #endif, failing and recursive includes, unterminated calls, unknown directives and nested conditionals inside inactive sections); oracles: the implementation output must equal the Lean reference expander output byte for byte (or fail with the error the reference names), markers of active sections occur and markers of inactive sections never occur in the output, string literals of active text occur unaltered, plain text passes through byte for byte',
+           'rule': 'sources generated from a grammar of directives (#define of object- and function-like macros with 0-3 parameters, multi-line definitions, #undef, #ifdef/#ifndef/#else/#endif nested two deep, #include of generated files by backslash, slash and bare names), macro uses (in statements, brackets, directly beside strings and operators; arguments that are numbers, identifiers, object-like macros, nested calls, empty, bracketed lists with commas, strings holding commas, parentheses and macro names, identifiers that contain a macro or parameter name), bodies with #stringify, ##concatenate, parameters inside strings and inside longer identifiers, other macros; strings holding comment markers, directives and macro names; line and block comments holding quotes and directives; plain token lines; CRLF variants; comments whose text begins or ends with `/` or `*`, adjacent comments, strings directly behind a comment; bodies with a word directly in front of a string that holds comment markers, identifiers that contain a parameter or macro name between underscores, parameters named like defined macros; macro cycles through arguments; every text is preprocessed twice in one VM and must give the same answer; plus plain texts and malformed sources (argument count, recursive macros, unknown directive, stray #else/#endif, missing #endif, failing and recursive includes, unterminated calls, unknown directives and nested conditionals inside inactive sections); oracles: the implementation output must equal the Lean reference expander output byte for byte (or fail with the error the reference names), markers of active sections occur and markers of inactive sections never occur in the output, string literals of active text occur unaltered, plain text passes through byte for byte',
            'samples': samples, 'oracle_failures': n_or, 'reference_mismatches': n_mm, 'expanded': n_ok, 'rejected': n_fail,
            'rule_checks': checked, 'source_sizes': {str(k): v for k, v in sorted(sizes.items())}, 'generator_counts': g.stats}
     return rep.finish(cov, ['callback macros other than __LINE__ and __FILE__ (__COUNTER__, __EVAL, __EXEC, version macros) are not part of the reference',
